@@ -1759,7 +1759,9 @@ find_reg(const RegisterTable *t,
     struct maybe_register rv = { .valid = true, .handle = 0 };
 
     for (RegisterHandle i = first; i <= last; i++) {
-        if (reg_range_touches(t->entry + i, addr, 1u) == 0) {
+        /* The first register that is not entirely below the address: either
+         * it contains the address, or it is the next one behind a gap. */
+        if (reg_range_touches(t->entry + i, addr, 1u) >= 0) {
             rv.handle = i;
             return rv;
         }
@@ -1849,10 +1851,10 @@ register_foreach_in(RegisterTable *t,
     struct maybe_area startarea = find_area(t, 0, t->areas - 1u, addr);
     struct maybe_register startreg;
 
-    if (startarea.valid) {
+    if (startarea.valid && t->area[startarea.handle].entry.count > 0u) {
+        /* No register of a previous area can reach into this one. */
         const RegisterHandle first = t->area[startarea.handle].entry.first;
-        const RegisterHandle last = t->area[startarea.handle].entry.last;
-        startreg = find_reg(t, first, last, addr);
+        startreg = find_reg(t, first, t->entries - 1u, addr);
     } else {
         startreg = find_reg(t, 0, t->entries - 1u, addr);
     }
